@@ -838,7 +838,14 @@ static void* reb_simulation_integrate_raw(void* args){
 #ifdef __EMSCRIPTEN__
     double t0 = emscripten_performance_now();
 #endif
+    int no_progress = 0;
     while(reb_check_exit(r,thread_info->tmax,&last_full_dt)<0){
+        if (no_progress){
+            // All further steps would do the same. Exit with an error instead of looping forever.
+            reb_simulation_error(r,"Integration is not making progress: the last step did not advance the time and left the timestep unchanged (timestep too small compared to the current time, zero, or rejected at the minimum timestep). Exiting.");
+            r->status = REB_STATUS_GENERIC_ERROR;
+            break;
+        }
 #ifdef __EMSCRIPTEN__
         double t1 = emscripten_performance_now();
         if (t1-t0>1000./120.){ // max framerate 120Hz
@@ -876,12 +883,9 @@ static void* reb_simulation_integrate_raw(void* args){
         const double t_before_step = r->t;
         const double dt_before_step = r->dt;
         reb_simulation_step(r); 
-        if (r->status<0 && r->t==t_before_step && r->dt==dt_before_step && thread_info->tmax!=INFINITY){
-            // The step neither advanced the time nor changed the timestep (t+dt==t in floating point, dt==0, or
-            // a step that is rejected at the minimum timestep). All further steps would do the same. Exit with an error instead of looping forever.
-            reb_simulation_error(r,"Integration is not making progress: the last step did not advance the time and left the timestep unchanged (timestep too small compared to the current time, zero, or rejected at the minimum timestep). Exiting.");
-            r->status = REB_STATUS_GENERIC_ERROR;
-        }
+        // Did the step neither advance the time nor change the timestep (t+dt==t in floating point, dt==0, or
+        // a step that is rejected at the minimum timestep)? Checked at the top of the loop, after reb_check_exit had the chance to finish the integration.
+        no_progress = (r->t==t_before_step && r->dt==dt_before_step && thread_info->tmax!=INFINITY);
         reb_run_heartbeat(r);
         if (reb_sigint){
             r->status = REB_STATUS_SIGINT;
